@@ -19,7 +19,8 @@ IwsFlow == {-1, 0, 16384, 32768, 49152}
 MfsAll == {-1, 1, 16384, 32768, 16777216}
 MfsFlow == {-1, 16384, 32768}
 ClNone == {-1}
-ClSome == {-1, 13107}
+ClSome == {-1, 0, 13107}
+ClZero == {-1, 0}
 
 Summary ==
   [conn |-> conn, ga |-> ga, inC |-> inC, outC |-> outC, maxId |-> maxId,
@@ -42,6 +43,8 @@ Kinds ==
                   \cup (IF Used \/ ~Early \/ 0 \in SidsUsed THEN CKinds \cap {"WU"} ELSE {})
                   \cup (IF CKinds \cap {"PRIORITY", "PINGACK", "UNKNOWN"} # {} THEN {"NOEFF"} ELSE {})
                   \cup (IF CKinds \cap {"CONT", "PUSH"} # {} /\ ~Early THEN {"CONNERR"} ELSE {})
+                  \cup (IF \E s \in Idle : InMap(s) /\ ~bclosed[s] /\ buf[s] # <<>> /\ "RACE" \in CKinds
+                        THEN {"RACE"} ELSE {})
                   \cup (IF Idle # {} /\ "ret" \in HOps THEN {"h-ret"} ELSE {})
                   \cup (IF \E s \in Idle : ~bclosed[s] /\ "read" \in HOps THEN {"h-read"} ELSE {})
                   \cup (IF \E s \in Idle : InMap(s) /\ bst[s] = "open" /\ ~bclosed[s] /\ "closebody" \in HOps
